@@ -132,7 +132,9 @@ var modeNames = []string{"text", "pretty", "binary", "text-quiet", "text-imports
 // writer then emits a symbol table before the first value, the binary writer uses import IDs.
 var genImportSyms = []string{"a", "zz_imported", "name"}
 
-func genImport() ion.SharedSymbolTable { return ion.NewSharedSymbolTable("gen_shared", 1, genImportSyms) }
+func genImport() ion.SharedSymbolTable {
+	return ion.NewSharedSymbolTable("gen_shared", 1, genImportSyms)
+}
 
 func newWriter(mode int, buf *bytes.Buffer) ion.Writer {
 	switch mode {
